@@ -102,8 +102,27 @@ def run(ctx):
     # a history without a mutator, edit or copy says nothing about aliasing
     hs = [h for h in hs if any(st[0] in ("Mutate", "EditExport", "EditReturned", "EditInput", "Copy") for st in h)]
     if not thorough:
+        # stratified sample: histories are grouped by their pattern (the action names, with what is edited / exported /
+        # how the grid is mutated) and drawn round-robin, so that every kind of alias is replayed in every run however
+        # large the alphabet grows
         rng.shuffle(hs)
-        hs = hs[:3600]
+        buckets = {}
+        for h in hs:
+            pat = tuple(st[0] + (":" + str(st[2][0]) if st[0] in ("EditReturned", "Mutate", "ToXarray") and st[2] else "") for st in h)
+            buckets.setdefault(pat, []).append(h)
+        order = sorted(buckets)
+        rng.shuffle(order)
+        picked = []
+        while len(picked) < 4200 and order:
+            for pat in list(order):
+                if buckets[pat]:
+                    picked.append(buckets[pat].pop())
+                else:
+                    order.remove(pat)
+                if len(picked) >= 4200:
+                    break
+        hs = picked
+        ctx.note("history_patterns", len(buckets))
     jobs = []
     for k, h in enumerate(hs):
         # the copy slot is handle 2 in this configuration
